@@ -1151,7 +1151,7 @@ pub fn case_history(bytes: &[u8], ctx: &mut Ctx) -> CaseResult {
 pub fn run_main() {
     engine::main(Property {
         id: "C18",
-        rule: "a case is a history of 0..60 operations (insert at Auto/AsRoot/Leaf{live leaf, internal, free, out-of-range index; side}, upsert, delete of present/absent keys, batch_insert of 0..12 entries that are all fresh / random / fresh with one injected duplicate key or hash, calculate_lazy_hashes, reload from bytes, proofs) over a small key space (keys 0..11, values 0..3, hashes derived from (key,value) or from a pool of 6) or a large one (mixed 64-bit keys incl. extremes, arbitrary hashes incl. hashes of existing leaves); the full oracle runs after every step. Non-trivial = the history contains a successful delete followed by an insert that consumes a freed index, or a non-empty batch_insert on a non-empty tree, or a failed operation followed by further operations, AND every obviously legal operation in it succeeded; distinct by the decoded operation sequence.",
+        rule: "a case is an optional chain prologue (1 case in 20: 2..140 inserts each at the leaf inserted last, so that the tree's height equals their number, optionally followed by a hash recomputation; the history is then capped at 16 operations) and a history of 0..60 operations (insert at Auto/AsRoot/Leaf{live leaf, internal, free, out-of-range index; side}, upsert, delete of present/absent keys, batch_insert of 0..12 entries that are all fresh / random / fresh with one injected duplicate key or hash, calculate_lazy_hashes, reload from bytes, proofs) over a small key space (keys 0..11, values 0..3, hashes derived from (key,value) or from a pool of 6) or a large one (mixed 64-bit keys incl. extremes, arbitrary hashes incl. hashes of existing leaves); the full oracle runs after every step. Non-trivial = the history contains a successful delete followed by an insert that consumes a freed index, or a non-empty batch_insert on a non-empty tree, or a failed operation followed by further operations, AND every obviously legal operation in it succeeded; distinct by the decoded operation sequence.",
         assumptions: &[
             "sha2::Sha256 (not chia-sha2) is a correct SHA-256; an internal node's hash is sha256(0x02 | left | right) as defined by internal_hash in blob.rs",
             "get_node(index) returns the block stored at that index (it is the harness's only way to see the tree shape)",
@@ -1178,6 +1178,9 @@ pub fn run_main() {
                 "nt:failed-op-then-more-ops",
                 "space:large",
                 "space:small",
+                "chain-prologue:depth-64-66",
+                "chain-prologue:depth-67-99",
+                "chain-prologue:depth-100+",
             ],
         }],
     });
